@@ -20,10 +20,13 @@ use std::io::Cursor;
 use std::sync::Arc;
 use vcommon::*;
 
-const NULL_SENTINEL: &str = "\u{1}NULL\u{1}";
+/// The CSV null sentinel.  The property's domain is "null sentinel distinct from every value": the
+/// sentinel contains U+0002, which is not among the generator's PIECES, and `gen_text` additionally
+/// re-draws any text equal to it, so no generated field can collide with it.
+const NULL_SENTINEL: &str = "\u{2}NULL\u{2}";
 
 fn never_null() -> regex::Regex {
-    regex::Regex::new("^\u{1}NULL\u{1}$").unwrap()
+    regex::Regex::new("^\u{2}NULL\u{2}$").unwrap()
 }
 fn parse_records(s: &str) -> Vec<Vec<Vec<u8>>> {
     s.split('|').map(|r| r.split(',').map(unhex).collect()).collect()
@@ -417,8 +420,14 @@ fn run_case(line: &str, sink: &mut Sink, tags: &str) -> String {
 // ------------------------------------------------------------------ generators
 const PIECES: [&str; 22] = ["a", "b", ",", "\"", "\"\"", "\n", "\r", "\r\n", " ", "\t", ";", "\\", "é", "😀", "\u{0}", "\u{1}", "\u{7f}", "\u{ffff}", "\u{20000}", "'", "#", "NULL"];
 fn gen_text(rng: &mut Rng, max: usize) -> String {
-    let n = rng.usize(max + 1);
-    (0..n).map(|_| *rng.pick(&PIECES)).collect()
+    loop {
+        let n = rng.usize(max + 1);
+        let s: String = (0..n).map(|_| *rng.pick(&PIECES)).collect();
+        // stay inside the property's domain: never a value equal to the null sentinel in use
+        if s != NULL_SENTINEL {
+            return s;
+        }
+    }
 }
 fn hex_or_empty(b: &[u8], empty: &str) -> String {
     if b.is_empty() { empty.to_string() } else { hex(b) }
